@@ -861,6 +861,17 @@ def _tri_points(rng, mag, integer=False):
         w = [-c for c in u]                             # angle pi (degenerate)
     elif r < 0.22:
         w = [0.0, 0.0, 0.0]                             # C == B
+    elif r < 0.36:
+        # needle / nearly flat corner: angle 1e-7 .. 1e-3 away from 0 or pi (well inside the admissible set, but badly conditioned formulas
+        # such as sqrt(1 - cos^2) lose half their digits here)
+        th = 10.0 ** rng.uniform(-7, -3)
+        p = _gen_dir(rng)
+        d = sum(a * b for a, b in zip(p, u))
+        nu = math.sqrt(sum(a * a for a in u))
+        p = [a - d * b / (nu * nu) for a, b in zip(p, u)]
+        npn = math.sqrt(sum(a * a for a in p)) or 1.0
+        sgn = 1.0 if rng.random() < 0.5 else -1.0
+        w = [sgn * b + math.tan(th) * nu * a / npn for a, b in zip(p, u)]
     lu, lw = 10.0 ** rng.uniform(-2, 2), 10.0 ** rng.uniform(-2, 2)
     A = [b + s * lu * c for b, c in zip(B, u)]
     C = [b + s * lw * c for b, c in zip(B, w)]
@@ -895,7 +906,21 @@ def run_angle(desc, ctx):
             ctx.check(abs(t1 - t2) <= 1e-12, "angle", "angle_3pts_symmetric", "not_symmetric_in_end_points",
                       "angle_3pts(A,B,C) != angle_3pts(C,B,A)", A=A, B=B, C=C, abc=t1, cba=t2)
         well = theta is not None and 1e-3 <= theta <= math.pi - 1e-3
-        ctx.cls("angle:" + ("generic" if well else "degenerate"))
+        thin = theta is not None and not well and 1e-7 <= min(theta, math.pi - theta) and mag not in ("huge", "tiny", "mixed")
+        ctx.cls("angle:" + ("generic" if well else ("thin" if thin else "degenerate")))
+        if thin:
+            # thin corner: cotan and angle_3pts must still agree, to the relative accuracy the conditioning 1/theta allows
+            okt, ctt = sent.call("cotan", G.cotan, a_in, b_in, c_in, expect=(Exception,), law_monitor="angle")
+            if okt and t1 is not None and t1 > 0:
+                ctv = _scalar(ctt)
+                dist = min(t1, math.pi - t1)
+                if ctv is not None and math.isfinite(ctv) and dist > 0:
+                    ang = math.atan2(1.0, ctv)
+                    ang_d = ang if t1 < 1 else math.pi - ang
+                    rel = abs(ang_d - dist) / dist
+                    ctx.check(rel <= 1e5 * 2.3e-16 / dist + 1e-12, "angle", "cotan_thin", "not_reciprocal_tangent_of_angle_3pts_on_thin_corner",
+                              "on a thin (but non-degenerate) corner cotan(A,B,C) is not 1/tan(angle_3pts(A,B,C)) to the accuracy its conditioning allows",
+                              A=A, B=B, C=C, cotan=ctv, angle_3pts=t1, relative_error=rel)
         # ---------------- cotan == 1/tan(angle_3pts)
         okc, ct = sent.call("cotan", G.cotan, a_in, b_in, c_in, expect=() if well else (Exception,), law_monitor="angle")
         if well and okc and t1 is not None:
